@@ -5,7 +5,9 @@ rates 0.1 and 0.2): point A has 5 labelled trials, point B has 3.  Every set par
 5 trials (Bell(5) = 52) into non-empty result files x a container kind per file in
 {plain .json, .json.gz, member of a .zip, merged into one list by the real `merge-results`
 command} x orders in which the files are presented (all permutations for <= 3 files, plus the
-"give Analysis the directory" form); B's trials are dealt round-robin over the same files, so a
+"give Analysis the directory" form, in which files sit in nested sub-directories and every second
+base name carries extra dots, e.g. p0.05/run_p0.05.v0.json, batch.2/deep/res.2.json.gz, also for
+the zip archive, its members and the merged file); B's trials are dealt round-robin over the same files, so a
 parameter point repeats over several files and most files hold records of both points.  Records are
 written by the real DirectSimulation/BatchSimulation.save_file code (trial outcomes injected).
 k in {1, 2, 3} (Planar2DCode 2x2, Toric2DCode 2x2, Toric3DCode 2x2x2); the trial sets walk through
@@ -371,9 +373,17 @@ def _build(ctx, d, files, kinds, order):
     for pos, i in enumerate(perm):
         kind = KINDS[kinds[i]]
         ext = '.json.gz' if (kind == 'gz' or (kind in ('zip', 'merged') and i % 2 == 1)) else '.json'
-        sub = d if kind in ('json', 'gz') else os.path.join(d, 'tmp')
+        base, nest = 'f%d' % i, ''
+        if order == 'dir':
+            # a results directory as users lay it out: nested sub-directories and base names carrying
+            # parameter values / run numbers with dots; find_files globs '*.zip', '*.json.gz', '*.json'
+            # recursively, so every such file belongs to the analysed set
+            if i % 2 == 0:
+                base = ('run_p0.05.v%d' if kind != 'gz' else 'res.%d') % i
+            nest = ['', 'p0.05', os.path.join('batch.2', 'deep')][i % 3]
+        sub = os.path.join(d, nest) if kind in ('json', 'gz') else os.path.join(d, 'tmp', nest)
         os.makedirs(sub, exist_ok=True)
-        path = os.path.join(sub, 'f%d%s' % (i, ext))
+        path = os.path.join(sub, base + ext)
         ctx.write(path, files[i], bare=(len(files[i]) == 1 and (i + len(files)) % 2 == 0), ulp=(i % 2 == 1))
         if kind == 'zip':
             zipped.append((pos, path))
@@ -384,12 +394,17 @@ def _build(ctx, d, files, kinds, order):
     units = dict(plain)
     if zipped:
         zpath = os.path.join(d, 'archive.zip')
+        if order == 'dir':
+            os.makedirs(os.path.join(d, 'p0.05'), exist_ok=True)
+            zpath = os.path.join(d, 'p0.05', 'archive.v1.zip')
+        tmp = os.path.join(d, 'tmp')
         with zipfile.ZipFile(zpath, 'w') as z:
             for _, p in zipped:
-                z.write(p, os.path.basename(p))
+                # member names keep their (possibly nested, dotted) relative path inside the archive
+                z.write(p, os.path.relpath(p, tmp).replace(os.sep, '/'))
         units[zipped[0][0]] = zpath
     if merged:
-        mpath = os.path.join(d, 'merged-results.json.gz')
+        mpath = os.path.join(d, 'merged-results.json.gz' if order != 'dir' else 'merged.p0.1.json.gz')
         r = ctx.CliRunner().invoke(ctx.cli, ['merge-results'] + [p for _, p in merged] + ['-o', mpath])
         if r.exit_code != 0 or not os.path.isfile(mpath):
             if r.exception is not None and not isinstance(r.exception, SystemExit):
